@@ -226,3 +226,60 @@ def issuer_of(parsed):
         if t == 16:
             return b.hex().upper()
     return None
+
+
+# ---------- pinned source text (models written against exactly this text; a change is reported through ctx.broken) ----------
+def src_digest(obj):
+    import inspect
+    return hashlib.sha256(inspect.getsource(obj).encode()).hexdigest()[:16]
+
+
+def check_pins(ctx, pins):
+    """pins: list of (label, object, expected digest or None).  None -> print the digest (development aid)"""
+    for label, obj, want in pins:
+        try:
+            got = src_digest(obj)
+        except Exception as ex:
+            ctx.broken.append('pinned source of %s cannot be read: %r' % (label, ex)); continue
+        if want is None:
+            ctx.notes.append('pin %s = %s' % (label, got))
+        elif got != want:
+            ctx.broken.append('pinned source of %s changed (sha256/16 %s, model written against %s): re-inspect the model' % (label, got, want))
+
+
+def sig_pins(pgpy):
+    from pgpy.pgp import PGPSignature, PGPKey
+    from pgpy.packet.fields import SubPackets, RSAPub, DSAPub, ECDSAPub, EdDSAPub, DSASignature, EdDSASignature
+    from pgpy.packet.packets import SignatureV4
+    return [
+        ('PGPSignature.hashdata', PGPSignature.hashdata, PIN.get('PGPSignature.hashdata')),
+        ('PGPKey.verify', PGPKey.verify, PIN.get('PGPKey.verify')),
+        ('SubPackets.parse', SubPackets.parse, PIN.get('SubPackets.parse')),
+        ('SubPackets.__hashbytearray__', SubPackets.__hashbytearray__, PIN.get('SubPackets.__hashbytearray__')),
+        ('SubPackets.__setitem__', SubPackets.__setitem__, PIN.get('SubPackets.__setitem__')),
+        ('SubPackets.__copy__', SubPackets.__copy__, PIN.get('SubPackets.__copy__')),
+        ('SignatureV4.parse', SignatureV4.parse, PIN.get('SignatureV4.parse')),
+        ('SignatureV4.__bytearray__', SignatureV4.__bytearray__, PIN.get('SignatureV4.__bytearray__')),
+        ('RSAPub.verify', RSAPub.verify, PIN.get('RSAPub.verify')),
+        ('DSAPub.verify', DSAPub.verify, PIN.get('DSAPub.verify')),
+        ('ECDSAPub.verify', ECDSAPub.verify, PIN.get('ECDSAPub.verify')),
+        ('EdDSAPub.verify', EdDSAPub.verify, PIN.get('EdDSAPub.verify')),
+        ('DSASignature.from_signer', DSASignature.from_signer, PIN.get('DSASignature.from_signer')),
+        ('EdDSASignature.from_signer', EdDSASignature.from_signer, PIN.get('EdDSASignature.from_signer')),
+    ]
+
+
+PIN = {'PGPSignature.hashdata': '2981eddc50082cba',
+       'PGPKey.verify': '6522905d6508d47c',
+       'SubPackets.parse': '1265ea5b5c258ce1',
+       'SubPackets.__hashbytearray__': '9409a500cab97232',
+       'SubPackets.__setitem__': 'b326059a02237a59',
+       'SubPackets.__copy__': '9f85a0155a10717b',
+       'SignatureV4.parse': 'acd43ddb641de29d',
+       'SignatureV4.__bytearray__': '45cbee56b0fa9bee',
+       'RSAPub.verify': '8d2365a5e2675812',
+       'DSAPub.verify': '193d676b2bbc578b',
+       'ECDSAPub.verify': 'd6924db65cca3f88',
+       'EdDSAPub.verify': '332acaddbb37d8cc',
+       'DSASignature.from_signer': 'ee3ee71cfba56746',
+       'EdDSASignature.from_signer': '37b916a6bc2615b1'}
